@@ -345,7 +345,11 @@ def linspace(
     num = int(num)
 
     if dtype is None:
-        dtype = np.linspace(0, 1, 1).dtype
+        # like numpy, let the types of start and stop decide (float32 scalars
+        # give a float32 result, everything up to float64 gives float64)
+        dtype = np.result_type(
+            *(getattr(v, "dtype", v) for v in (start, stop)), 1.0
+        )
 
     chunks = normalize_chunks(chunks, (num,), dtype=dtype)
 
